@@ -179,7 +179,7 @@ class Unit:
                 line = LABEL_RX.sub('', line, count=1)
             if getattr(self, 'strip_pub', False) and not s.startswith('//'):
                 line = re.sub(r'\bpub\s+(open|closed)\s+', '', line)
-                line = re.sub(r'\bpub\s+(?!\()', '', line)
+                line = re.sub(r'\bpub\s+(?!\(|assume_specification)', '', line)
             emit(line)
             i += 1
 
@@ -303,6 +303,7 @@ class Unit:
         txt = rw.r1(raw)
         txt = rw.r2(txt)
         txt = rw.r5(txt)
+        txt = rw.r9(txt)
         txt = rw.r3(txt, subs)
         # re-find body brace in rewritten text
         m = re.search(r'\bfn\s+%s\b' % re.escape(name), txt)
